@@ -29,7 +29,7 @@ def sh(cmd, **kw):
 
 def main():
     a = sys.argv[1:]
-    src, sid = a[0], a[1]
+    src, sid = os.path.abspath(a[0]), a[1]
     checks = None
     tier = "quick"
     skip_tests = "--skip-tests" in a
@@ -40,6 +40,8 @@ def main():
     if "--tier" in a:
         tier = a[a.index("--tier") + 1]
     meta = json.load(open(os.path.join(src, "meta.json")))
+    if "agent_meta" in meta:
+        meta = meta["agent_meta"]
     prop = meta.get("property", sid.split("-")[0])
     if checks is None:
         checks = [prop]
@@ -85,7 +87,8 @@ def main():
     dst = os.path.join(VERIF, "seeded", sid)
     os.makedirs(dst, exist_ok=True)
     for f in ("patch.diff", "demo.py"):
-        shutil.copy(os.path.join(src, f), os.path.join(dst, f))
+        if os.path.realpath(os.path.join(src, f)) != os.path.realpath(os.path.join(dst, f)):
+            shutil.copy(os.path.join(src, f), os.path.join(dst, f))
     old = {}
     if os.path.exists(os.path.join(dst, "meta.json")):
         try:
